@@ -54,6 +54,8 @@ pub struct Profile {
     pub conf_heavy_pm: u64,
     /// after a compaction: what-if mutation sequence on a scratch copy of the node's storage (C19)
     pub storage_exercise_pm: u64,
+    /// share of the 'bogus input' events that are (pre-)vote requests from a node outside the configuration
+    pub stranger_vote_pm: u64,
     pub slow_msg_pm: u64,
     pub fifo_pm: u64,
     /// client op weights
@@ -123,6 +125,7 @@ impl Profile {
             slow_apply_pm: 100,
             conf_heavy_pm: 300,
             storage_exercise_pm: 0,
+            stranger_vote_pm: 300,
             slow_msg_pm: 60,
             fifo_pm: 300,
             w_propose: 60,
@@ -214,6 +217,8 @@ pub struct Driver<'a> {
     dup_pm: u64,
     adversary: bool,
     conf_heavy: bool,
+    /// swarm: one kind of client operation is five times as frequent in this run (0 = none)
+    emphasis: u64,
     /// candidate -> (term, shielded until)
     shield: BTreeMap<NodeId, (u64, u64)>,
     /// leader of a contested term -> its outgoing traffic is held until
@@ -228,6 +233,8 @@ pub struct Driver<'a> {
     last_snapshots: u64,
     calm: bool,
     defer_notify: bool,
+    /// persistence notices arrive later than election timeouts in this run
+    late_notify: bool,
 }
 
 const MS: u64 = 1000;
@@ -335,6 +342,7 @@ impl<'a> Driver<'a> {
         let dup_pm = if rng.pm(500) { p.dup_pm } else { 0 };
         let adversary = p.election_adversary_pm > 0 && rng.pm(p.election_adversary_pm);
         let conf_heavy = rng.pm(p.conf_heavy_pm);
+        let emphasis = if rng.pm(500) { rng.range(2, 8) } else { 0 };
         let fifo = rng.pm(p.fifo_pm);
         let mix_modes = rng.pm(p.mix_modes_pm);
         let delay_across_partition = rng.pm(500);
@@ -354,6 +362,7 @@ impl<'a> Driver<'a> {
             dup_pm,
             adversary,
             conf_heavy,
+            emphasis,
             shield: BTreeMap::new(),
             muted: BTreeMap::new(),
             fifo,
@@ -366,8 +375,10 @@ impl<'a> Driver<'a> {
             last_snapshots: 0,
             calm: false,
             defer_notify: false,
+            late_notify: false,
         };
         d.defer_notify = d.rng.pm(p.defer_notify_pm);
+        d.late_notify = d.defer_notify && d.rng.pm(300);
         for id in ids {
             if d.world.nodes[&id].running() {
                 let phase = d.rng.below(d.nd[&id].tick_period);
@@ -424,7 +435,8 @@ impl<'a> Driver<'a> {
             | Action::EntriesFetched { n }
             | Action::Restart { n }
             | Action::StartNode { n }
-            | Action::Bogus { n, .. } => *n,
+            | Action::Bogus { n, .. }
+            | Action::StrangerVote { n, .. } => *n,
             Action::Deliver { k } => k.t,
             _ => return None,
         })
@@ -740,7 +752,10 @@ impl<'a> Driver<'a> {
     fn client_op(&mut self) -> Result<(), Violation> {
         let p = self.p;
         let w_conf = if self.conf_heavy { p.w_conf * 5 } else { p.w_conf };
-        let ws = [p.w_propose, w_conf, p.w_read, p.w_transfer, p.w_compact, p.w_knob, p.w_reqsnap, p.w_storage_fault, p.w_misc, p.w_bogus];
+        let mut ws = [p.w_propose, w_conf, p.w_read, p.w_transfer, p.w_compact, p.w_knob, p.w_reqsnap, p.w_storage_fault, p.w_misc, p.w_bogus];
+        if self.emphasis >= 2 && (self.emphasis as usize) < ws.len() {
+            ws[self.emphasis as usize] *= 5;
+        }
         let mut which = self.rng.weighted(&ws);
         if self.calm && (which == 1 || which == 3) {
             which = 0; // the lock-step scenario excludes membership changes and requested transfers
@@ -880,7 +895,14 @@ impl<'a> Driver<'a> {
                     let from = if self.rng.pm(300) { 77 } else { *self.rng.pick(&ids) };
                     let kind = self.rng.below(19) as u8;
                     let term_delta = self.rng.range(0, 2) as i8 - 1;
-                    self.act(Action::Bogus { n, kind, from, term_delta })?;
+                    if !self.calm && self.rng.pm(self.p.stranger_vote_pm) {
+                        // a removed / misconfigured node that keeps campaigning
+                        let a = Action::StrangerVote { n, from: 77, term_delta: self.rng.range(0, 2) as u8, pre: self.rng.pm(300), fresh: self.rng.pm(500) };
+                        self.fault("vote_request_from_outside_the_configuration");
+                        self.act(a)?;
+                    } else {
+                        self.act(Action::Bogus { n, kind, from, term_delta })?;
+                    }
                 }
             }
         }
@@ -1248,7 +1270,13 @@ impl<'a> Driver<'a> {
                 let defer = self.defer_notify && self.rng.pm(400);
                 self.act(Action::Fsync { n, count, defer })?;
                 if defer {
-                    let d = if self.rng.pm(300) { self.rng.range(5, 80) * MS } else { self.rng.range(50, 3000) };
+                    let d = if self.late_notify && self.rng.pm(500) {
+                        self.rng.range(50, 500) * MS
+                    } else if self.rng.pm(300) {
+                        self.rng.range(5, 80) * MS
+                    } else {
+                        self.rng.range(50, 3000)
+                    };
                     self.push(d, Ev::Notify(n));
                 }
                 self.schedule_node_work(n);
